@@ -2,7 +2,7 @@
 //!
 //! Sum of all individual transaction amounts in sequence transactions for reconciliation and validation.
 
-use super::swift_utils::parse_amount;
+use super::swift_utils::parse_amount_with_length;
 use crate::traits::SwiftField;
 use serde::{Deserialize, Serialize};
 
@@ -29,7 +29,7 @@ impl SwiftField for Field19 {
     where
         Self: Sized,
     {
-        let amount = parse_amount(input)?;
+        let amount = parse_amount_with_length(input, 17)?;
 
         Ok(Field19 { amount })
     }
